@@ -831,6 +831,7 @@ def ev_ticks(case, res, cx):
         return int(v)
 
     # --- scalars
+    scalar_ticks = {}  # k -> result for the Python float k/1000.0 ("for scalars and arrays alike", see the array section)
     for k, readings in zip(ks, exp_ticks):
         n_states += 1
         forms = [("float", k / 1000.0), ("npfloat", np.float64(k / 1000.0))]
@@ -842,6 +843,8 @@ def ev_ticks(case, res, cx):
             ok, v = cx.call("seconds-to-ticks", M.seconds_to_midi_ticks, t, Q, P)
             if ok:
                 r = check_tick(v, readings, "seconds_to_midi_ticks", d)
+                if r is not None and fname == "float":
+                    scalar_ticks[k] = r
                 if r is not None and j is None:
                     j = r
             if len(res.violations) >= 8:
@@ -922,7 +925,16 @@ def ev_ticks(case, res, cx):
         d = "%s array=%s[%d] seconds %r..%r" % (ctxd, aname, arr.size, ks[0] / 1000.0, ks[-1] / 1000.0)
         ok, out = cx.call("seconds-to-ticks-array", M.seconds_to_midi_ticks, arr, Q, P)
         if ok:
-            check_tick_array(arr, out, rd, "seconds_to_midi_ticks(array)", d)
+            good = check_tick_array(arr, out, rd, "seconds_to_midi_ticks(array)", d)
+            if good and aname == "float64":
+                # "for scalars and arrays alike": where both readings of an exact half-way value are accepted, the
+                # array element and the scalar call on the same float must still take the same one
+                for i, (k, v) in enumerate(zip(ks, out.tolist())):
+                    if k in scalar_ticks and scalar_ticks[k] != v:
+                        res.fail("seconds-to-ticks-scalar-array-alike", expected="scalar result %r" % scalar_ticks[k], observed=v,
+                                 where="seconds_to_midi_ticks(array) vs seconds_to_midi_ticks(float)",
+                                 detail="%s t=%r element %d" % (ctxd, k / 1000.0, i))
+                        break
         if not np.array_equal(keep, arr):
             res.fail("argument-unchanged", expected="input array untouched", observed="changed", where="seconds_to_midi_ticks", detail=d)
     ok, out = cx.call("seconds-to-ticks-array", M.seconds_to_midi_ticks, t=tf, mpq=Q, ppq=P)
